@@ -77,6 +77,33 @@ def warm(numba=False):
     return vector
 
 
+def warm_third_party():
+    """Exercise numpy / awkward / sympy *without any vector code*, so forked children do not
+    each pay their lazy imports.  No vector-owned state is touched: the parent stays pristine."""
+    import copy
+    import pickle
+
+    import awkward as ak
+    import numpy as np
+    import sympy
+
+    a = ak.Array([[{"x": 1.0, "y": 2.0}], []])
+    b = ak.zip({"x": a.x, "y": a.y}, with_name="VecsimWarm")
+    _ = a.x + a.y
+    for f in (np.sqrt, np.nan_to_num, np.absolute, np.sin, np.cos, np.exp, np.arctan, np.sinh, np.arcsinh, np.sign, np.log1p):
+        f(a.x)
+    for f in (np.arctan2, np.maximum, np.minimum, np.copysign, np.isclose, np.equal):
+        f(a.x, a.y)
+    ak.to_list(b); ak.to_buffers(b); ak.sum(a.x, axis=-1); ak.count(a.x, axis=None); repr(a); str(a.type)
+    a[0]; a[0, 0]; ak.broadcast_arrays(a.x, 1.0); ak.with_name(a, "VecsimWarm2"); ak.Array([{"x": 1.0}, None])
+    ak.flatten(a); ak.num(a); ak.fields(a); pickle.loads(pickle.dumps(a)); copy.deepcopy(a); ak.is_none(a)
+    ak.count_nonzero(a.x, axis=None); ak.Array([1.0])[0]; ak.Record({"x": 1.0})
+    s = np.array([(1.0, 2.0)], dtype=[("x", "f8"), ("y", "f8")])
+    s["x"]; repr(s); pickle.loads(pickle.dumps(s)); np.empty((2,), dtype=s.dtype); copy.deepcopy(s)
+    x, y = sympy.symbols("x y", real=True)
+    sympy.sqrt(x**2 + y**2); sympy.atan2(y, x); sympy.srepr(x + y); sympy.cos(x) * sympy.sin(y); sympy.Abs(x)
+
+
 def tree_hash():
     """Content hash of /repo/src/vector (goes into replay files and evidence)."""
     import hashlib
